@@ -398,6 +398,121 @@ def get_model(d, ci):
     return _models[(d, ci)]
 
 
+# ---- base URIs and references of every shape x every cache configuration (differential) ----
+J_BASES = [None, "urn:example:root", "tag:example.com,2020:root", "mem://docs/root.json", H + "root.json",
+           "file:///x/y/root.json", "mailto:a@b", "x-custom:thing", "HTTP://H.INVALID/Root.json", H + "root.json?q=1",
+           H, "//h.invalid/x.json", "root.json", "mem:opaque", H + "a/b/../root.json"]
+J_REFS = ["#/definitions/a", "#", "", "other.json#/t", "./other.json#/t", "../up.json#/t", "/abs.json#/t",
+          "//h2.invalid/n.json#/t", "?q#/t", "mem://docs/other.json#/t", "urn:example:other#/t", "#/t", "other.json"]
+J_SUBIDS = [None, "sub/", "urn:example:sub", "mem://docs/sub/x.json", "#frag", "../z.json"]
+J_CONFIGS = [(cr, ck) for cr in (True, False) for ck in ("default", "passthrough", "lru1", "lru-unbounded", "dict-memo")]
+J_SCHEMES = ["http", "https", "mem", "urn", "tag", "file", "mailto", "x-custom", ""]
+
+
+def j_doc(url):
+    """What every URL serves: a document whose subschemas name the URL they were retrieved from."""
+    return {"t": {"enum": ["t of " + url]}, "definitions": {"a": {"enum": ["a of " + url]}}, "enum": ["whole " + url]}
+
+
+def j_schema(d, base, ref, subid):
+    idk = refmodel.IDK[d]
+    props = {"p": {"$ref": ref}}
+    if subid is not None:
+        props["q"] = {idk: subid, "properties": {"r": {"$ref": ref}}}
+    S = {"definitions": {"a": {"enum": ["a of the root"]}}, "t": {"enum": ["t of the root"]}, "properties": props}
+    if base is not None:
+        S[idk] = base
+    return S
+
+
+def j_resolver(d, S, cfg):
+    cr, ck = cfg
+    cls = _e1.CLS[d]
+    handlers = {sch: (lambda uri: j_doc(uri)) for sch in J_SCHEMES}
+    kw = {}
+    if ck == "passthrough":
+        holder = {}
+        kw = dict(urljoin_cache=urljoin, remote_cache=lambda url: holder["r"].resolve_from_url(url))
+    elif ck in ("lru1", "lru-unbounded"):
+        holder = {}
+        size = 1 if ck == "lru1" else None
+        kw = dict(urljoin_cache=functools.lru_cache(size)(urljoin),
+                  remote_cache=functools.lru_cache(size)(lambda url: holder["r"].resolve_from_url(url)))
+    elif ck == "dict-memo":
+        holder = {}
+        memo = {}
+
+        def join(a, b):
+            if (a, b) not in memo:
+                memo[(a, b)] = urljoin(a, b)
+            return memo[(a, b)]
+        kw = dict(urljoin_cache=join, remote_cache=lambda url: holder["r"].resolve_from_url(url))
+    r = RefResolver.from_schema(S, id_of=cls.ID_OF, handlers=handlers, cache_remote=cr, **kw)
+    if kw:
+        holder["r"] = r
+    return r
+
+
+def j_observe(d, S, cfg):
+    cls = _e1.CLS[d]
+    out = []
+    try:
+        r = j_resolver(d, S, cfg)
+        v = cls(S, resolver=r)
+    except Exception as e:
+        return ("construct", type(e).__name__)
+    for x in ({"p": 0, "q": {"r": 0}}, {"q": {"r": 0}, "p": 0}):
+        for _ in range(2):          # the second pass meets warm caches
+            try:
+                out.append(tuple(sorted((e.validator, e.message, tuple(e.absolute_path)) for e in v.iter_errors(x))))
+            except exceptions.RefResolutionError:
+                out.append("RefResolutionError")
+            except Exception as e:
+                out.append("EXC " + type(e).__name__)
+    return tuple(out)
+
+
+def run_joins(unit, ctx):
+    d, _, shard, n = unit
+    NET.install()
+    ev = nt = 0
+    viol, outcomes, samples = [], {}, []
+    try:
+        combos = [(b, rf, si) for b in J_BASES for rf in J_REFS for si in J_SUBIDS]
+        for i in range(shard, len(combos), n):
+            base, ref, subid = combos[i]
+            S = j_schema(d, base, ref, subid)
+            if not _e1.accepted(d, S):
+                continue
+            seen = {}
+            for cfg in J_CONFIGS:
+                ev += 1
+                seen[cfg] = j_observe(d, copy.deepcopy(S), cfg)
+            ref0 = seen[J_CONFIGS[0]]
+            kinds = set("errors" if isinstance(o, tuple) else o for o in (ref0 if isinstance(ref0, tuple) and ref0 and ref0[0] != "construct" else [ref0]))
+            for k in kinds:
+                outcomes["joins:" + str(k)[:30]] = outcomes.get("joins:" + str(k)[:30], 0) + 1
+            nt += len(J_CONFIGS)
+            for cfg in J_CONFIGS[1:]:
+                if seen[cfg] != ref0:
+                    scheme = (base or "").split(":")[0] if base and ":" in base.split("/")[0] else ("none" if base is None else "relative")
+                    viol.append({"signature": "C15|cache-configurations-disagree|cache_remote=%s,%s|base-scheme=%s" % (
+                        cfg[0], cfg[1], scheme.lower()), "size": len(str(S)),
+                                 "case": {"kind": "joins", "draft": d, "schema": S, "configs": [list(J_CONFIGS[0]), list(cfg)]},
+                                 "detail": {"default_caches": ref0, "this_configuration": seen[cfg]}})
+            if NET.calls:
+                viol.append({"signature": "C15|network-touched|joins", "size": len(str(S)),
+                             "case": {"kind": "joins", "draft": d, "schema": S, "configs": [list(c) for c in J_CONFIGS]},
+                             "detail": {"calls": NET.calls[:4]}})
+                del NET.calls[:]
+            if not samples:
+                samples.append({"kind": "joins", "draft": d, "schema": S, "configs": [list(c) for c in J_CONFIGS]})
+    finally:
+        NET.uninstall()
+    return {"evaluations": ev, "nontrivial": nt, "violations": viol, "samples": samples, "outcomes": outcomes,
+            "counters": {"states": ev, "transitions": ev * 4, "traces_validated_against_impl": ev, "join_cases": ev}}
+
+
 def plan(ctx):
     _load_meta()
     drafts = (4, 7) if ctx.tier == "quick" else _e1.DRAFTS
@@ -408,10 +523,17 @@ def plan(ctx):
                 continue        # the fallback transports meet one draft in the quick tier
             m = get_model(d, ci)
             units += [(d, ci, i) for i in range(len(m.all_ops))]
+    for d in _e1.DRAFTS:
+        units += [(d, "joins", i, 6) for i in range(6)]
     D0, D1, dev = depths(ctx)
     return {
         "units": units,
-        "rule": ("a driver schema referring to two handler-served documents through 6 distinct references "
+        "rule": ("JOINS: 15 base URIs (none, urn:, tag:, mem://, opaque, file:, mailto:, upper-case, query, directory, "
+                 "scheme-relative, relative, dot segments) x 13 reference spellings x 6 subschema ids x 4 drafts, every "
+                 "URL served by a handler with a document that names its URL; each validated twice on two instances "
+                 "under 10 cache configurations (cache_remote on/off x default / pass-through / lru_cache(1) / "
+                 "unbounded lru / dict memo): all configurations must report the same errors.  HISTORIES: "
+                 "a driver schema referring to two handler-served documents through 6 distinct references "
                  "(several fragments, '#', no fragment, upper-case scheme, a document that refers on), one "
                  "store-supplied document and the bundled metaschema; configurations {cache_remote on, off} x "
                  "{default lru, pass-through, lru_cache(1)} with a scheme handler, and x {default, pass-through} with "
@@ -429,6 +551,8 @@ def plan(ctx):
 
 def run_unit(unit, ctx):
     _load_meta()
+    if unit[1] == "joins":
+        return run_joins(unit, ctx)
     d, ci, first = unit
     m = get_model(d, ci)
     D0, D1, dev = depths(ctx)
@@ -456,6 +580,13 @@ def run_unit(unit, ctx):
 
 def replay(case, ctx):
     _load_meta()
+    if case.get("kind") == "joins":
+        NET.install()
+        try:
+            outs = [j_observe(case["draft"], copy.deepcopy(case["schema"]), tuple(c)) for c in case["configs"]]
+        finally:
+            NET.uninstall()
+        return {"reproduced": len(set(map(repr, outs))) > 1, "observations": outs}
     m = get_model(case["draft"], case["config"])
     hist = tuple(tuple(op) for op in case["history"])
     NET.install()
